@@ -565,6 +565,13 @@ def check_case(ctx, case):
     if case.get("kind") == "synthetic":
         return True     # registry-level states have no generator-known intent; covered by the correspondence
     if not case.get("links"):
+        # a bare document (hand-written witness): it must at least be processed without raising
+        from lib.impl import publish
+        try:
+            publish(case["text"], dict(case.get("settings") or {}))
+        except Exception as e:
+            ctx.fail(exc_signature(e), case, f"publishing raised {e!r}", expected="a doctree", observed=repr(e))
+            return False
         return True
     return check_doc(ctx, case)
 
@@ -586,7 +593,7 @@ def search(ctx):
             check_case(ctx, c)
     from gen.c09_docs import gen_case
     cases = []
-    n = ctx.budget(8000, 100000, 150000)
+    n = ctx.budget(8000, 100000, 40000)
     for i in range(n):
         c = gen_case(ctx.rng, want_empty_title=True if i % 10 == 0 else None)
         if i % 9 == 4:
